@@ -55,7 +55,7 @@ PRIM = {'quick': (500000, 125000), 'thorough': (30000000, 7500000)}
 
 def jobs(tier, seed):
     t = 'q' if tier == 'quick' else 't'
-    to = 900 if tier == 'quick' else 5400
+    to = 900 if tier == 'quick' else 14400
     pd, pc = PRIM['quick' if tier == 'quick' else 'thorough']
     js = []
     for i in range(NW):
